@@ -1,5 +1,6 @@
 import Model.Prg
 import Proofs.Prg
+import Proofs.Uniform
 
 /-! # C15 — sampling helpers are in range, valid and exactly uniform in the PRG's bits
 
@@ -167,6 +168,63 @@ theorem subPermutation_prefix (fuel : Nat) (s s' : State) (n m : Int) (out : Lis
   · rename_i s2 r hne hp
     cases r <;> simp_all
 
+
+/-! ### exact uniformity
+
+`UintN(n)` repeats *attempts*; an attempt reads `size` fresh bytes, forms a candidate and accepts it when it is
+`≤ n-1`. (a) the candidate is the number of the fresh bytes modulo `2^k` (`k` the bit length of `n-1`,
+`k ≤ 8·size`): the stale bytes of the scratch buffer never matter; (b) over the `256^size` equally likely byte
+strings every candidate value `< 2^k` occurs exactly `2^(8·size-k)` times - in particular every value `< n`
+equally often; (c) the function returns the candidate of the first accepted attempt. Hence every value of
+`[0, n)` has exactly the same probability. -/
+
+/-- (a) + parameters: mask and byte size computed by the code from `n` -/
+theorem uintN_candidate (n : Nat) (hn : 0 < n) (h64 : n - 1 < 2 ^ 64) :
+    ∃ k, maskOf 65 (n - 1) 0 = 2 ^ k - 1 ∧ n - 1 < 2 ^ k ∧ k ≤ 8 * byteSize 9 (n - 1) ∧
+      ∀ bytes stale : Bytes, bytes.length = byteSize 9 (n - 1) →
+        leNat (bytes ++ stale) &&& maskOf 65 (n - 1) 0 = attempt k (leNat bytes) := by
+  obtain ⟨k, h1, h2, h3⟩ := uintN_params n hn h64
+  refine ⟨k, h1, h2, h3, ?_⟩
+  intro bytes stale hl
+  rw [h1]
+  exact candidate_eq bytes stale _ k hl h3
+
+/-- (b) every value in range is produced by exactly the same number of source byte strings -/
+theorem uintN_attempt_uniform (size k v v' : ℕ) (hk : k ≤ 8 * size) (hv : v < 2 ^ k) (hv' : v' < 2 ^ k) :
+    ((Finset.range (256 ^ size)).filter (fun x => attempt k x = v)).card = 2 ^ (8 * size - k) ∧
+    ((Finset.range (256 ^ size)).filter (fun x => attempt k x = v)).card =
+      ((Finset.range (256 ^ size)).filter (fun x => attempt k x = v')).card :=
+  ⟨attempt_uniform size k v hk hv, attempt_equiprobable size k v v' hk hv hv'⟩
+
+/-- one attempt of the loop: the new state and the candidate -/
+def cand (max size mask : Nat) (s : State) : State × Nat :=
+  let r := read blk s size
+  let ubuf := r.2 ++ r.1.ubuf.drop size
+  ({ r.1 with ubuf := ubuf }, leNat ubuf &&& mask)
+
+/-- "the loop returns the candidate of the first accepted attempt" -/
+inductive FirstAccept (max size mask : Nat) : State → State → Nat → Prop
+  | hit (s) : (cand blk max size mask s).2 ≤ max →
+      FirstAccept max size mask s (cand blk max size mask s).1 (cand blk max size mask s).2
+  | miss (s s' v) : ¬ (cand blk max size mask s).2 ≤ max →
+      FirstAccept max size mask (cand blk max size mask s).1 s' v → FirstAccept max size mask s s' v
+
+/-- (c) -/
+theorem uintNLoop_first_accept (max size mask : Nat) : ∀ (fuel : Nat) (s s' : State) (v : Nat),
+    uintNLoop blk max size mask fuel s = some (s', v) → FirstAccept blk max size mask s s' v := by
+  intro fuel
+  induction fuel with
+  | zero => intro s s' v h; simp [uintNLoop] at h
+  | succ f ih =>
+    intro s s' v h
+    simp only [uintNLoop] at h
+    split at h
+    · next hle =>
+      cases h
+      exact FirstAccept.hit s hle
+    · next hgt =>
+      exact FirstAccept.miss s s' v hgt (ih _ _ _ h)
+
 /-- negative or inconsistent sizes are errors and leave the generator untouched -/
 theorem samples_errors (fuel : Nat) (s : State) (n m : Int) (h : m < 0 ∨ n < m) :
     samples blk fuel s n m = (s, .err) := by
@@ -202,3 +260,6 @@ end Props.C15
 #print axioms Props.C15.permLoop_perm
 #print axioms Props.C15.permutation_perm
 #print axioms Props.C15.subPermutation_prefix
+#print axioms Props.C15.uintN_candidate
+#print axioms Props.C15.uintN_attempt_uniform
+#print axioms Props.C15.uintNLoop_first_accept
